@@ -226,3 +226,26 @@ Proof.
   rewrite L2. unfold ph. rewrite (restore_one _ d _ (lines_nodir x Hxh) (lines_nodir y Hyh)).
   now rewrite (J d).
 Qed.
+
+(* ------------------------------------------------------------------ the composed statement is false *)
+Definition w_s1 : text := [35;100;101;102;105;110;101;32;88;32].     (* "#define X " *)
+Definition w_f  : text := [47;42;10;42;47].                          (* block comment with a newline *)
+Definition w_s2 : text := [49;10].                                   (* "1" newline *)
+
+Lemma w_f_filler : filler w_f.
+Proof. apply (f_block [10] 1%nat). reflexivity. Qed.
+
+Lemma w_s1_closed : closed w_s1.
+Proof. repeat (apply cl_plain; [discriminate|]). constructor. Qed.
+
+Lemma full_statement_refuted :
+  ~ (forall s1 f s2, closed s1 -> filler f -> word_boundary (sc s1) (sc s2) ->
+     match preprocess (s1 ++ f ++ s2), preprocess (s1 ++ s2) with
+     | Ok (t1, m1), Ok (t2, m2) => words t1 = words t2 /\ m1 = m2
+     | Err _, Err _ => True
+     | _, _ => False
+     end).
+Proof.
+  intros H. specialize (H w_s1 w_f w_s2 w_s1_closed w_f_filler eq_refl).
+  vm_compute in H. destruct H as [H _]. discriminate H.
+Qed.
